@@ -8,22 +8,15 @@ open Conc
 
 /-- The breaches of the lock discipline that the unchanged tree is known to contain, enumerated one by one
 (implementation, method performing the access, access, lock mode at that point, reached through `expire`).
-Four families:
-* `cachedRules` is read and written with no lock (`Add`, linear `rem`, `FindCachedRules`);
+Three families (a fourth, `cachedRules` read and written with no lock in `Add`, `rem`, `FindCachedRules`, was repaired in
+/repo by giving the cache its own mutex: the regenerated table now shows those accesses inside `lock2 "cacheMutex"`
+sections of the helper methods, and they are no longer excepted — if they come back they are new breaches):
 * the storage call of `Add` (both), of linear `Rem`/`Clear`/`Delete` is outside the exclusive section that
   updates memory;
 * `expire → rem` mutates memory, the indexes, the cache and storage under the *shared* lock (from `Search`,
   `FindRules`) or under no lock at all (from `Get`, after it released its shared lock);
 * `FindRules.Do` writes `rule.Id` on the `*Rule` objects shared through `cachedRules`. -/
 def knownExceptions : List Viol := [
-  -- cachedRules outside the lock
-  ⟨"indexed", "Add", .wr .cachedRules, .none, false⟩,
-  ⟨"indexed", "FindCachedRules", .rd .cachedRules, .none, false⟩,
-  ⟨"indexed", "FindCachedRules", .wr .cachedRules, .none, false⟩,
-  ⟨"linear", "Add", .wr .cachedRules, .none, false⟩,
-  ⟨"linear", "rem[lock=true]", .wr .cachedRules, .none, false⟩,
-  ⟨"linear", "FindCachedRules", .rd .cachedRules, .none, false⟩,
-  ⟨"linear", "FindCachedRules", .wr .cachedRules, .none, false⟩,
   -- storage updated outside the exclusive section that updates memory
   ⟨"indexed", "Add", .store "Add", .none, false⟩,
   ⟨"linear", "Add", .store "Add", .none, false⟩,
@@ -31,16 +24,13 @@ def knownExceptions : List Viol := [
   ⟨"linear", "Clear", .store "Clear", .none, false⟩,
   ⟨"linear", "Delete", .store "Delete", .none, false⟩,
   -- expire → rem under the shared lock (Search, FindRules)
-  ⟨"indexed", "rem", .wr .cachedRules, .r, true⟩,
   ⟨"indexed", "unindexRule", .wr .ruleIndex, .r, true⟩,
   ⟨"indexed", "rem", .wr .mem, .r, true⟩,
   ⟨"indexed", "rem", .wr .factIndex, .r, true⟩,
   ⟨"indexed", "rem", .store "Remove", .r, true⟩,
-  ⟨"linear", "rem[lock=false]", .wr .cachedRules, .r, true⟩,
   ⟨"linear", "rem[lock=false]", .store "Remove", .r, true⟩,
   ⟨"linear", "rem[lock=false]", .wr .mem, .r, true⟩,
   -- expire → rem with no lock at all (Get calls expire after releasing its shared lock)
-  ⟨"indexed", "rem", .wr .cachedRules, .none, true⟩,
   ⟨"indexed", "rem", .rd .mem, .none, true⟩,
   ⟨"indexed", "unindexRule", .wr .ruleIndex, .none, true⟩,
   ⟨"indexed", "rem", .wr .mem, .none, true⟩,
@@ -49,7 +39,6 @@ def knownExceptions : List Viol := [
   ⟨"indexed", "SearchForIDs", .rd .mem, .none, true⟩,
   ⟨"indexed", "SearchForIDs", .rd .factIndex, .none, true⟩,
   ⟨"indexed", "search", .rd .mem, .none, true⟩,
-  ⟨"linear", "rem[lock=false]", .wr .cachedRules, .none, true⟩,
   ⟨"linear", "rem[lock=false]", .store "Remove", .none, true⟩,
   ⟨"linear", "rem[lock=false]", .rd .mem, .none, true⟩,
   ⟨"linear", "rem[lock=false]", .wr .mem, .none, true⟩,
